@@ -88,6 +88,13 @@ FAMILIES = {
         "vh_cfg": {},
         "tiers": {"quick": {"rand": 48, "rlen": 2, "chunks": 8}, "thorough": {"rand": 1500, "rlen": 2, "chunks": 14}},
     },
+    "chain": {
+        "fix_all": ["sizes"], "trace_fix": None,
+        "mc": {"module": "MCChain", "cfg": {"quick": "Chain-mc-quick.cfg", "thorough": ["Chain-mc-quick.cfg"]}, "timeout": {"quick": 300, "thorough": 900}},
+        "trace_module": "ChainTrace", "trace_cfg": "Chain-trace.cfg",
+        "vh_cfg": {},
+        "tiers": {"quick": {"rand": 48, "rlen": 120, "chunks": 8}, "thorough": {"rand": 1200, "rlen": 200, "chunks": 14}},
+    },
 }
 
 SP_ASSUME = COMMON_ASSUME + [
@@ -244,5 +251,25 @@ PROPS = {
                         "the exported JSON substituted into the default genesis",
                         "record kinds are identified by store key prefix", "seven per-kind outcomes are known findings; any other lost/changed/extra "
                         "kind, failed Validate, parameter difference or re-export difference is a violation"],
+    },
+    "C05": {
+        "family": "chain", "formulas": ["C05_NoPanic"], "nt": "C05",
+        "bug_variants": [("sizes", ["C05_NoHalt"], "Chain-mc-quick.cfg")],
+        "rule": "one history = a fresh chain, a scripted population of all custom modules, then signed transactions of randomly chosen custom "
+                "message types whose every field is drawn from boundary values (int64 min/-1/0/1/2^62/max, odd strings, random and known "
+                "merkle roots) and that pass ValidateBasic, interleaved with proofs and whole-app block boundaries; non-trivial = a block "
+                "boundary (BeginBlock+EndBlock+Commit under recover); distinct = distinct app hashes reached",
+        "assumptions": ["all delivery through signed DeliverTx with the real ante handler and ABCI BeginBlock/EndBlock/Commit",
+                        "storage windows ProofWindow=3, CheckWindow=4, chunk size 2; block time step one day",
+                        "parameter-induced panics are C13's quantifier, not C05's"],
+    },
+    "C06": {
+        "family": "chain", "formulas": ["C06_Same"], "nt": "C06", "pair": True,
+        "bug_variants": [],
+        "rule": "the same seeded history (as for C05) is executed by two separate OS processes (GOMAXPROCS=1 and 16, independent map "
+                "iteration seeds); every transaction's (code, codespace, gas, event digest) and every block's (panic flag, app hash, "
+                "end-block event digest) are compared; non-trivial = every compared step; distinct = distinct observations",
+        "assumptions": ["nondeterminism is sampled by double execution, not modelled: the TLA+ part contributes the 2-safety equality formula and its evaluation",
+                        "same binary, same machine: architecture-dependent divergence is out of reach"],
     },
 }
